@@ -94,7 +94,7 @@ var subC16Unm = &fw.Sub{Name: "c16.unmarshal-maporder", New: func() fw.Case { re
 		}
 		fw.Tally("map_orders", int64(x.Executions))
 		fw.Tally("states", int64(x.Executions))
-		fw.Tally("transitions", int64(x.Executions))
+		fw.Tally("transitions", x.Steps+int64(x.Executions))
 		fw.Tally("traces_validated", int64(x.Executions))
 		if x.Executions > 1 {
 			fw.TallyOutcome("unmarshal-several-orders")
@@ -144,6 +144,7 @@ var subC16Sched = &fw.Sub{Name: "c16.schedules", New: func() fw.Case { return &c
 		}
 		first, set := "", false
 		total := 0
+		var steps int64
 		for b := 0; b <= c.Bound; b++ {
 			x := &vsched.Explorer{Bound: b, Body: body, MaxExec: maxExecPerCase(), Stop: func() bool { fw.Heartbeat(); return fw.Cur != nil && fw.Cur.Expired() },
 				Check: func(e *vsched.Exec) (string, string) {
@@ -162,6 +163,7 @@ var subC16Sched = &fw.Sub{Name: "c16.schedules", New: func() fw.Case { return &c
 				}}
 			x.Explore()
 			total = x.Executions
+			steps = x.Steps + int64(x.Executions)
 			if x.Infra != "" {
 				return fw.Failf("deterministic replay", "INFRA %s", x.Infra)
 			}
@@ -175,7 +177,7 @@ var subC16Sched = &fw.Sub{Name: "c16.schedules", New: func() fw.Case { return &c
 		}
 		fw.Tally("schedules", int64(total))
 		fw.Tally("states", int64(total))
-		fw.Tally("transitions", int64(total))
+		fw.Tally("transitions", steps)
 		fw.Tally("traces_validated", int64(total))
 		fw.TallyOutcome("schedule-independent:" + c.API)
 		fw.TallyNontrivial()
